@@ -79,7 +79,7 @@ def parseLong (fs : PFlags) (body : Str) (next : Option Str) : Except Err ((Str 
     if c = '-' ∨ c = '=' then .error .badSyntax else
     let (n, v?) := Str.cutChar '=' body
     match findLong fs n with
-    | none => if n == "help".toList then .error .help else .error .unknownLong
+    | none => if body == "help".toList then .error .help else .error .unknownLong
     | some f =>
       match v? with
       | some v => if valueOk f v then .ok ((f.name, v), false) else .error .badValue
